@@ -12,6 +12,7 @@ Ops (coordinates are `d` integers):
   `has <x>`         -> `0` | `1 c=<id>`            has / getCell
   `nb <x>`          -> `<k> <id>*k`                neighbors(coord), in the code's order
   `topi` / `tope`   -> `<id>` | `none`             topInternal / topExternal (not called on an empty grid)
+  `rmtopi`/`rmtope` -> `c=<id>` | `none`           remove (+ destroyCell) the cell topInternal/topExternal returns
   `clear`           -> `ok`
 Every result is followed by ` | <dump>`: the cell table sorted by id
 (`id:coords:neighbors:border:data:ids of neighbors(cell)`), both heaps in array order, both counts, the raw
@@ -105,6 +106,14 @@ def step (st : St) (ts : List String) : St × String :=
   let cfg := st.cfg
   let g := st.g
   let fin (g' : GridB) (res : String) : St × String := ({ st with g := g' }, res ++ " | " ++ dump cfg g')
+  -- `rmtopi`/`rmtope`: remove (+ destroy) the cell that topInternal()/topExternal() returns
+  let rmTop (t : Option Nat) : St × String :=
+    match t with
+    | none => fin g "none"
+    | some i =>
+      match g.cells.find? (fun c => c.id == i) with
+      | some c => fin (removeCell cfg g c.coord).1 s!"c={i}"
+      | none => fin g "stale-top"
   match ts with
   | "new" :: rest =>
     match coord? cfg.dim rest with
@@ -156,6 +165,8 @@ def step (st : St) (ts : List String) : St × String :=
     match topExternal g with
     | some i => fin g (toString i)
     | none => fin g "none"
+  | ["rmtopi"] => rmTop (topInternal g)
+  | ["rmtope"] => rmTop (topExternal g)
   | ["clear"] => fin (clear g) "ok"
   | _ => (st, "bad-op")
 
